@@ -127,6 +127,30 @@ def gen_hot_ops(rng, cfg, n):
     return ops
 
 
+def gen_lru_pin_ops(rng, cfg, n):
+    """LRU with a high-priority pool: entries are looked up and held (pinned: their weight leaves the pool), the pool fills
+    up again, the handles are released in some order (the weight comes back, the pool overflows into the low-priority
+    list), and a stream of inserts then shows who is evicted first"""
+    univ = cfg["univ"]
+    ops, nexth, nextv, held = [], 1, 1, []
+    for _ in range(n):
+        r = rng.random()
+        if r < 0.45:
+            k = rng.randrange(univ)
+            ops += [f"ins k={k} v={nextv} w={rng.choice([1, 1, 2])} low={1 if rng.random() < 0.15 else 0} ph=0 h={nexth}",
+                    f"drop h={nexth}"]; nexth += 1; nextv += 1
+        elif r < 0.7:
+            ops.append(f"get k={rng.randrange(univ)} h={nexth}"); held.append(nexth); nexth += 1
+        elif held:
+            h = held.pop(rng.randrange(len(held))); ops.append(f"drop h={h}")
+    for h in held:
+        ops.append(f"drop h={h}")
+    for _ in range(rng.choice([3, 6])):
+        ops += [f"ins k={rng.randrange(univ)} v={nextv} w=1 low=0 ph=0 h={nexth}", f"drop h={nexth}"]; nexth += 1; nextv += 1
+    ops.append("dropcache")
+    return ops
+
+
 def script_text(cfg, ops):
     return cfg_line(cfg) + "\n" + "\n".join(ops) + "\n"
 
